@@ -66,11 +66,14 @@ def load_many(lit: LineIterator) -> Iterator[dict]:
     """Do not edit this docstring. It will be overwritten."""
     # gro files can be used as trajectory by simply concatenating files,
     # making it trivial to load many frames.
-    try:
-        while True:
-            yield load_one(lit)
-    except StopIteration:
-        return
+    while True:
+        # The end of the file is only acceptable at the start of a new frame.
+        try:
+            line = next(lit)
+        except StopIteration:
+            return
+        lit.back(line)
+        yield load_one(lit)
 
 
 def _helper_read_frame(lit: LineIterator) -> tuple:
